@@ -65,7 +65,7 @@ def decls(r, ents, cts):
     for i, c in enumerate(cts):
         # mostly acyclic: a common type refers to earlier ones (5%: any, possibly cyclic)
         visible = cts if r.random() < 0.05 else cts[:i]
-        out.append('type %s = %s;' % (c, rrec(r, 2, ents, visible) if r.random() < 0.6 else rtype(r, 2, ents, visible)))
+        out.append('type %s = %s;' % (c, rrec(r, 2, ents, visible) if r.random() < 0.75 else rtype(r, 2, ents, visible)))
     acts = r.sample(['view', 'edit', 'all', 'x y', 'in', ''], r.randrange(1, 4))
     for ai, a in enumerate(acts):
         s = 'action ' + (a if a.isidentifier() and a not in ('in',) and r.random() < 0.7 else q(a))
@@ -80,7 +80,8 @@ def decls(r, ents, cts):
             if r.random() < 0.3:
                 parts.reverse()
             if r.random() < 0.6:
-                parts.append('context: ' + rrec(r, 2, ents, cts))
+                # the context may be an inline record or a reference to a common type (the common type must then be a record)
+                parts.append('context: ' + (r.choice(cts) if cts and r.random() < 0.45 else rrec(r, 2, ents, cts)))
             s += ' appliesTo { ' + ', '.join(parts) + ' }'
         out.append(s + ';')
     r.shuffle(out)
